@@ -467,7 +467,7 @@ static void direct_core(Rec& r, const Ell& E, double lat1, double lon1, double a
     // |S12 exact=true line - I(2P)|] in 1e-4 m^2 (WGS84 size), the smallest cos(beta) along the path (1e-6), the conditioning kq, |sin(alpha0)|
     GeodesicLineExact l = S[1].e.Line(lat1, lon1, azi1, GeodesicExact::LATITUDE | GeodesicExact::AZIMUTH | GeodesicExact::DISTANCE_IN);
     auto pos = [&](double s, double& la_, double& az_) { double t; l.Position(s, la_, t, az_); };
-    int P = 8 + int(fabs(a12[1]) / 6);
+    int P = 8 + int((fabs(a12[1]) <= 720 ? fabs(a12[1]) : 720.0) / 6);       // (bounded also when the library returns garbage)
     auto cbeta = [&](double lat) { LD sp = sinl(lat * PIL / 180), cp = cosl(lat * PIL / 180); if (fabs(lat) == 90) cp = 0; return cp / hypotl(cp, (1 - (LD)f) * sp); };
     LD cpath = min(cbeta(lat1), cbeta(la[1]));      // smallest cos(beta) met along the path (at the nodes and the ends)
     LD kmax = max(kappa(a, f, lat1), kappa(a, f, la[1]));
@@ -560,7 +560,9 @@ static void inverse_core(Rec& r, vt::Rng& g, const Ell& E, int cls, double lat1,
   r.i("kq", kq(max(kappa(a, f, lat1), kappa(a, f, lat2)), scale, asc));
   // input classes of known findings (computed from the inputs only)
   { double l12 = fabs(double(remainderl((LD)lon2 - lon1, 360)));
-    if (f <= -0.2 && max(fabs(lat1), fabs(lat2)) < 1e-3 && max(fabs(lat1), fabs(lat2)) > 0 && l12 >= 90) r.str("kf", "exact-inverse-prolate-nearly-equatorial"); }
+    if (f <= -0.2 && max(fabs(lat1), fabs(lat2)) < 1e-3 && max(fabs(lat1), fabs(lat2)) > 0 && l12 >= 90) r.str("kf", "exact-inverse-prolate-nearly-equatorial");
+    // both points within 1e-4 deg of a pole of a needle b/a >= 64 (radius of curvature at the tip a/64)
+    else if (E.fi == 13 && E.bp >= 64 * E.bq && 90 - fabs(lat1) < 1e-4 && 90 - fabs(lat2) < 1e-4) r.str("kf", "exact-inverse-needle-tip"); }
   r.i("mx", vt::q1(ceill(max((LD)1, max(fabsl((LD)M12[1]), fabsl((LD)M21[1])))), 1.0L));      // |m12| in metres (WGS84 size): conditioning of the azimuths
   r.b("eqaz", azi1[1] == azi2[1] && azi1[0] == azi2[0]).b("meraz", fabs(azi1[1]) == 0 || fabs(azi1[1]) == 180);
   // I1 closure through the direct problem, each solver by itself: by distance (clo, clt) and by the returned arc length (cla)
@@ -651,6 +653,9 @@ static void inverse_law(vt::Rng& g, long long id, const vector<Sym>& syms, bool 
     else { int k = int(g.range(1, 6)); E = g.coin() ? ratio_ell(1, 1LL << k, a) : ratio_ell(1LL << k, 1, a); }
     lat1 = g.uni(-90, 90); lon1 = g.uni(-180, 180); lat2 = g.uni(-90, 90); lon2 = g.uni(-180, 180);
     cls = newcls ? int(g.range(13, 16)) : int(g.range(0, 16));
+    // a third of the records on the eccentric members fall into the astroid region (regime 17), where the Newton iteration of the
+    // inverse problem is hardest and the bisection fallback is reached
+    if (!newcls && E.fi == 13 && g.range(0, 2) == 0) cls = 17;
   }
   double f = E.f;
   switch (cls) {
@@ -671,6 +676,11 @@ static void inverse_law(vt::Rng& g, long long id, const vector<Sym>& syms, bool 
   case 15: { lat1 = lat2 = 0; double t = g.uni(0, 2); lon2 = lon1 + (g.coin() ? 1 : -1) * 180 * (1 - fabs(f) * t); break; }   // equator, around the break-away longitude 180 (1 - f)
   case 16: { double t = g.uni(0, 2); lat1 = g.uni(-1, 1) * pow(10.0, g.uni(-12, -3)); lat2 = g.uni(-1, 1) * pow(10.0, g.uni(-12, -3));   // nearly equatorial, same longitudes
     lon2 = lon1 + (g.coin() ? 1 : -1) * 180 * (1 - fabs(f) * t); break; }
+  case 17: {   // astroid region: lat2 ~ -lat1, lon12 = 180 + x lamscale, x in [-2.5, 0] (the envelope of the geodesics from point 1 has
+    // the extent lamscale = |f| cos(beta1) 180 deg in longitude and lamscale cos(beta1) in latitude around the antipode)
+    LD cb = cosl(atanl((1 - (LD)f) * tanl(lat1 * PIL / 180))); double lamscale = double(fabsl((LD)f) * cb * 180), x = g.uni(-2.5, 0), y = g.uni(-1, 1) * pow(10.0, g.uni(-6, 0.4));
+    if (lamscale > 170) lamscale = 170;
+    lat2 = -lat1 + (g.coin() ? 0 : y * lamscale * double(cb)); lon2 = lon1 + (g.coin() ? 1 : -1) * (180 + x * lamscale / 2.5 * (g.coin() ? 2.5 : 1)); lat2 = max(-90.0, min(90.0, lat2)); break; }
   default: break;
   }
   Rec r; r.str("e", "il").i("id", id); ell_fields(r, E);
